@@ -428,6 +428,28 @@ func vrSmallXPoint() vrPt {
 	}
 }
 
+// vrSmallCoordPoints: on-curve points whose x has one, two or three leading zero 64-bit words (x just above 0, 2^64,
+// 2^128) or sits at the word boundary 2^192, both signs of y. Conversions that work word by word or strip leading
+// zeros meet their corner cases here (random points never do: probability 2^-64).
+func vrSmallCoordPoints() []vrPt {
+	e := new(big.Int).Add(vrP, big.NewInt(1))
+	e.Rsh(e, 2)
+	var out []vrPt
+	for _, base := range []*big.Int{big.NewInt(1), new(big.Int).Lsh(big.NewInt(1), 64), new(big.Int).Lsh(big.NewInt(1), 128), new(big.Int).Sub(new(big.Int).Lsh(big.NewInt(1), 192), big.NewInt(8))} {
+		found := 0
+		for d := int64(0); d < 64 && found < 2; d++ {
+			bx := new(big.Int).Add(base, big.NewInt(d))
+			rhs := vrRHS(bx)
+			y := new(big.Int).Exp(rhs, e, vrP)
+			if new(big.Int).Exp(y, big.NewInt(2), vrP).Cmp(rhs) == 0 {
+				out = append(out, vrPt{x: bx, y: y}, vrPt{x: bx, y: new(big.Int).Sub(vrP, y)})
+				found++
+			}
+		}
+	}
+	return out
+}
+
 // ---------------------------------------------------------------- cases: group law
 
 func vrCaseAdd(c *vrCase) {
@@ -672,6 +694,10 @@ func vrCaseBytes(c *vrCase) {
 	sp := vrSmallXPoint() // leading zero bytes in x
 	one(sp, big.NewInt(1))
 	one(sp, vrLambda(c.rng))
+	for _, a := range vrSmallCoordPoints() {
+		one(a, big.NewInt(1))
+		one(a, vrLambda(c.rng))
+	}
 	for _, a := range pl.pt {
 		one(a, big.NewInt(1))
 		one(a, vrLambda(c.rng))
@@ -731,6 +757,16 @@ func vrCaseSetBytes(c *vrCase) {
 	one(nil, "nil")
 	one([]byte{}, "empty")
 	one([]byte{0}, "infinity")
+	for _, a := range vrSmallCoordPoints() {
+		one(vrEnc(a), "small coordinate")
+		// the same x plus p where that still fits 32 bytes: non-canonical, must be rejected
+		xp := new(big.Int).Add(a.x, vrP)
+		if xp.BitLen() <= 256 {
+			b := vrEnc(a)
+			copy(b[1:33], vrB32(xp))
+			one(b, "small x plus p")
+		}
+	}
 	for _, v := range []byte{1, 2, 3, 4, 5, 0xff} {
 		one([]byte{v}, "one byte")
 	}
